@@ -134,6 +134,7 @@ func (fr *Frame) lookupLocal(sc *Scope, name string) (Val, bool) {
 		return v, ok
 	}
 	if r, ok := fr.regs[a]; ok { // struct/array local: its reference
+		r.Nav = true
 		return r, true
 	}
 	return Val{}, false
@@ -322,6 +323,29 @@ func (fr *Frame) evalBinary(sc *Scope, x *EBin) Val {
 		case a.K == KKey && b.K == KKey:
 			eq = Eq(a.C[0], b.C[0])
 		default:
+			// struct values are navigated by reference in contract expressions; == compares contents
+			loadNav := func(v Val) Val {
+				if !v.Nav || v.K != KNormal || len(v.C) != 1 {
+					return v
+				}
+				pt, ok := v.T.Underlying().(*types.Pointer)
+				if !ok {
+					return v
+				}
+				if strings.Contains(ExprString(x), "old(") {
+					cfail("== on struct values under old() is not supported: compare the fields (%s)", ExprString(x))
+				}
+				switch u := pt.Elem().Underlying().(type) {
+				case *types.Struct:
+					return fr.loadStruct(sc.st, v.C[0], pt.Elem())
+				case *types.Array:
+					return fr.loadArray(sc.st, v.C[0], pt.Elem(), u)
+				}
+				return v
+			}
+			if a.Nav || b.Nav {
+				a, b = loadNav(a), loadNav(b)
+			}
 			a, b = fr.coerce(a, b), fr.coerce(b, a)
 			if a.K == KNormal && b.K == KNormal && len(a.C) == 1 && len(b.C) == 1 && a.C[0].Sort != b.C[0].Sort {
 				cfail("comparison of different types in %s (%s vs %s)", ExprString(x), a.C[0].Sort, b.C[0].Sort)
@@ -469,10 +493,12 @@ func (fr *Frame) selectField(sc *Scope, v Val, name string, what string) Val {
 			switch ft.Underlying().(type) {
 			case *types.Struct:
 				cur = scalar(types.NewPointer(ft), fr.subRef(ref, typeName(curT), cst, i))
+				cur.Nav = true
 				curT = ft
 				continue
 			case *types.Array:
 				cur = scalar(types.NewPointer(ft), fr.subRef(ref, typeName(curT), cst, i))
+				cur.Nav = true
 				curT = ft
 				continue
 			}
